@@ -35,6 +35,9 @@ def gen_online(g):
         chunks.append(n)
         left -= n
     c["chunks"] = chunks
+    # failing train calls between the chunks (no target, a target of the wrong size, a non-numeric input): rejected, and
+    # they count for nothing - neither an update nor a step of the learning-rate schedule
+    c["bad_calls"] = {str(i): g.choice(["noy", "wrongy", "strx"]) for i in range(1, len(chunks)) if g.chance(0.3)}
     c["X"] = [g.dyvec(d, a=2, k=6) for _ in range(T)]
     c["Y"] = [g.dyvec(o, a=2, k=6) for _ in range(T)]
     if g.chance(0.3):       # targets that start with exact zeros: zero error from zero weights
@@ -71,7 +74,20 @@ def run_online(c):
     Y = np.array(c["Y"], dtype=float)
     outs, snaps = [], []
     pos = 0
-    for n in c["chunks"]:
+    for ci, n in enumerate(c["chunks"]):
+        bad = (c.get("bad_calls") or {}).get(str(ci))
+        if bad:
+            try:
+                if bad == "noy":
+                    node.train(X[pos:pos + 1])
+                elif bad == "wrongy":
+                    node.train(X[pos:pos + 1], np.ones((1, c["o"] + 1)))
+                else:
+                    node.train(np.array([["a"] * c["d"]]), Y[pos:pos + 1])
+            except Exception:  # noqa
+                pass
+            else:
+                raise AssertionError(f"a train call with {bad} was accepted")
         s = node.train(X[pos:pos + n], Y[pos:pos + n], learn_every=c["learn_every"])
         outs.append(np.asarray(s, dtype=float).reshape(n, -1))
         pos += n
@@ -228,6 +244,7 @@ def check_cases(ctx, cases):
             for k in ("rule", "bias", "learn_every"):
                 ctx.stat(f"{k}={c[k]}")
             ctx.stat(f"calls={len(c['chunks'])}")
+            ctx.stat(f"failing train calls in between={len(c.get('bad_calls') or {})}")
             ctx.stat("has_len1_call" if 1 in c["chunks"] else "no_len1_call")
             ctx.sample({k: c[k] for k in ("rule", "d", "o", "bias", "learn_every", "chunks")} | {"X0": c["X"][0], "Y0": c["Y"][0]})
             check_online(ctx, c, o, mo)
